@@ -269,6 +269,9 @@ def eval_reject_case(flex, workdir, prog, policies, rng, flex_opts, inputs, back
         return res
     res['lastdfa'] = t.get('lastdfa')
     res['reject_tables'] = tables.is_reject(t)
+    res['dangerous'] = "dangerous trailing context" in res['flex_err']
+    var = tables.var_rules(t) if tables.is_reject(t) else []
+    res['var_rules'] = var
     if uses and not tables.is_reject(t):
         res['problems'].append(('reject-not-detected', "an action uses %s but the scanner was generated without REJECT support" % spelling))
     rc, out, err = scanner.compile_c(cfile, "s.exe", workdir, extra=(cc_extra or []) + ["-I" + os.path.dirname(flex)], backend=backend)
@@ -298,10 +301,17 @@ def eval_reject_case(flex, workdir, prog, policies, rng, flex_opts, inputs, back
                 res['problems'].append(('scanner-abnormal', "rc=%s sc=%d input=%s stderr=%s" % (rc, sc, hexs(w), err.decode(errors="replace")[:200])))
                 continue
             real[(ii, sc)] = scanner.parse_tokens(out)
-            queries.append("(rejtokens spec %d 1 %s %s ())" % (sc, wsx, psx))
-            order.append(('spec', ii, sc))
+            if var:
+                # variable trailing context: the text handed to an action is judged by the proved validator
+                # (any documented head of the match, coq/C07VarProofs.v), the walk through the alternatives stays exact
+                evs = "(" + " ".join("(%d %d)" % (x[0], x[1]) for x in real[(ii, sc)] if isinstance(x[0], int)) + ")"
+                queries.append("(rejvalidate %d 1 %s %s %s)" % (sc, wsx, psx, evs))
+                order.append(('validate', ii, sc))
+            else:
+                queries.append("(rejtokens spec %d 1 %s %s ())" % (sc, wsx, psx))
+                order.append(('spec', ii, sc))
             if tables.is_reject(t):
-                queries.append("(rejtokens t %d 1 %s %s %s)" % (sc, wsx, psx, tables.adj_sexp(t)))
+                queries.append("(%s t %d 1 %s %s %s)" % ("rejtokens_tc" if var else "rejtokens", sc, wsx, psx, tables.adj_sexp(t)))
                 order.append(('view', ii, sc))
     case = "(case %s\n%s\n(queries (%s)))\n" % (scanner.sx_program(prog), tsx, "\n".join(queries))
     rc, out, err = scanner.run_driver(case, workdir, timeout=300)
@@ -317,9 +327,16 @@ def eval_reject_case(flex, workdir, prog, policies, rng, flex_opts, inputs, back
             continue
         res['problems'].append(('inconclusive' if verdict == "INCONCLUSIVE" else 'lockstep-' + verdict.lower(), line))
     for (kind, ii, sc), line in zip(order, lines[nls:]):
-        toks = scanner.parse_driver_tokens(line.split(" ", 2)[2] if line.count(" ") >= 2 else "")
         r = real[(ii, sc)]
         rr = [(a, b) for a, b, _ in r]
+        if kind == 'validate':
+            okv = line.strip() == "rejvalidate x OK"
+            res['streams'].append({'input': hexs(inputs[ii]), 'sc': sc, 'real': rr, 'valid': okv, 'text_ok': True, 'variable_trailing': True})
+            if not okv and not res['dangerous']:
+                res['problems'].append(('token-mismatch', "sc=%d input=%s real=%s: not a walk through the alternatives in the documented order "
+                                        "with documented heads (variable trailing context)" % (sc, hexs(inputs[ii]), rr[:30])))
+            continue
+        toks = scanner.parse_driver_tokens(line.split(" ", 2)[2] if line.count(" ") >= 2 else "")
         if kind == 'spec':
             okv = rr == [tuple(x) for x in toks]
             res['streams'].append({'input': hexs(inputs[ii]), 'sc': sc, 'real': rr, 'valid': okv, 'text_ok': True, 'expected': toks[:60]})
